@@ -12,7 +12,11 @@
    used -> client13) and 11c0ed7 (guard of the srpUsername assignment now requires an SRP suite
    -> server12).  Re-synchronised with /repo 40ad8d2: the handshake wrapper's failure action now maps
    TLSIllegalParameterException / TLSDecodeError / TLSDecryptionFailed to alerts (6da5459 -> map_exn in
-   the model); guard text of the TLS <= 1.2 client resumption branch changed (C13's subject). *)
+   the model); guard text of the TLS <= 1.2 client resumption branch changed (C13's subject).
+   Re-synchronised with /repo 8fbaa01 (C06 rewrite of _getFinished): only the argument text of the two
+   client-side _getFinished calls changed (new keyword expect_new_session_ticket); the Finished
+   comparison row (verify_data, alert decrypt_error) and every assignment / session.create row are
+   unchanged and in the same order. *)
 From Coq Require Import List String.
 Import ListNotations.
 Open Scope string_scope.
@@ -77,7 +81,7 @@ Definition expected_sites : list (string * string * string * string * string * s
    "self.session.create(srp=None, client=clientCertChain, server=certificate.cert_chain if certificate else None, delegated_credential=delegated_credential)",
    "", "-");
   ("tlsconnection.py", "TLSConnection._clientResume", "check",
-   "self._getFinished(session.masterSecret, session.cipherSuite)",
+   "self._getFinished(session.masterSecret, session.cipherSuite, expect_new_session_ticket=ticket_announced)",
    "session and (session.sessionID or session.tls_1_0_tickets) and serverHello.session_id a...", "-");
   ("tlsconnection.py", "TLSConnection._clientKeyExchange", "assign",
    "serverCertChain = None",
@@ -92,7 +96,7 @@ Definition expected_sites : list (string * string * string * string * string * s
    "clientCertChain = None",
    "not(certificateRequest)", "-");
   ("tlsconnection.py", "TLSConnection._clientFinished", "check",
-   "self._getFinished(masterSecret, cipherSuite, nextProto=nextProto)",
+   "self._getFinished(masterSecret, cipherSuite, nextProto=nextProto, expect_new_session_ticket=expect_new_session_ticket)",
    "", "-");
   ("tlsconnection.py", "TLSConnection._handshakeServerAsyncHelper", "assign",
    "clientCertChain = None",
